@@ -376,9 +376,9 @@ impl Prop for ParseCorpus {
 
 pub fn parts() -> Vec<Box<dyn DynPart>> {
     vec![
-        Box::new(Gen::new(Roundtrip, 1_000_000, 100_000_000)),
+        Box::new(Gen::new(Roundtrip, 3_000_000, 300_000_000)),
         Box::new(Gen::listed(Grid, grid_list)),
         Box::new(Gen::corpus(ParseCorpus, corpus_list)),
-        Box::new(Gen::new(Parse, 2_000_000, 100_000_000)),
+        Box::new(Gen::new(Parse, 4_000_000, 300_000_000)),
     ]
 }
